@@ -1,7 +1,7 @@
 (* C11 — every sentence of the CDCN grammar is accepted with its intended meaning.
    Statements only; the proofs are in LiteralProofs.v, ParserProofs.v, CdcnProofs.v, Grammar.v. *)
 From Coq Require Import String.
-From Verif Require Import Base Params Value Lexer Literals Parser LexerProofs ParserProofs CdcnProofs LiteralProofs ParseRun Grammar Complete LexBridge LexBridge2.
+From Verif Require Import Base Params Value Lexer Literals Parser LexerProofs ParserProofs CdcnProofs LiteralProofs ParseRun Grammar Complete LexBridge LexBridge2 LexBridge3 LexRender.
 Close Scope string_scope.
 Open Scope Z_scope.
 
@@ -104,8 +104,7 @@ Proof. exact parser_sound_partial. Qed.
 
 (* character level, per token class (the bridge to the formatter's text, C10): a well-formed
    text of the class followed by a separator (end, space, newline, delimiter) is scanned as
-   exactly that class with exactly that length.  Partial: complex literals and the unicode
-   escapes (x, u, U forms) inside runes and strings are covered by the correspondence only. *)
+   exactly that class with exactly that length: every token class of the scanner is covered. *)
 Theorem C11_first_integer : forall ds rest, int_text ds -> sep_start rest ->
   try_types scan_order_t (ds ++ rest) = Some (TInteger, length ds).
 Proof. exact first_integer. Qed.
@@ -133,6 +132,38 @@ Proof. exact first_rune_simple_escape. Qed.
 Theorem C11_first_string_escaped : forall ps rest, forallb piece_ok ps = true ->
   try_types scan_order_t (34 :: flat ps ++ 34 :: rest) = Some (TString, (2 + length (flat ps))%nat).
 Proof. exact first_string_escaped. Qed.
+Theorem C11_first_complex : forall f1 s f2 rest, float_text f1 -> is_sign s = true -> float_text f2 ->
+  try_types scan_order_t (40 :: f1 ++ s :: f2 ++ 105 :: 41 :: rest) = Some (TComplex, (length f1 + length f2 + 4)%nat).
+Proof. exact first_complex. Qed.
+Theorem C11_first_rune_x : forall hs rest, hexes 2 hs ->
+  try_types scan_order_t (39 :: 92 :: 120 :: hs ++ 39 :: rest) = Some (TRune, 6%nat).
+Proof. exact first_rune_x. Qed.
+Theorem C11_first_rune_u : forall hs rest, hexes 4 hs ->
+  try_types scan_order_t (39 :: 92 :: 117 :: hs ++ 39 :: rest) = Some (TRune, 8%nat).
+Proof. exact first_rune_u. Qed.
+Theorem C11_first_rune_U : forall hs rest, hexes 8 hs ->
+  try_types scan_order_t (39 :: 92 :: 85 :: hs ++ 39 :: rest) = Some (TRune, 12%nat).
+Proof. exact first_rune_U. Qed.
+Theorem C11_first_string_full : forall ps rest, forallb piece_good ps = true ->
+  try_types scan_order_t (34 :: flat3 ps ++ 34 :: rest) = Some (TString, (2 + length (flat3 ps))%nat).
+Proof. exact first_string_full. Qed.
+
+(* composition: lexing a rendered token list gives the tokens back (Space tokens dropped, a
+   lone control character renamed, lines and positions as the scanner assigns them), then
+   EOF, provided every token text followed by the rest of the rendering is picked by one
+   round of scanTokens as its class and length (scannable; LexRender.sc_* discharge it class
+   by class); and the whole way from a rendering to the parsed value *)
+Theorem C11_lex_render : forall ts, scannable ts -> lex (render_toks ts) = place ts 1 1.
+Proof. exact lex_render. Qed.
+Theorem C11_place_strip : forall ts line pos,
+  map strip (place ts line pos) = map (fun x => (fst x, rename (snd x))) (filter visible ts) ++ [(TEOF, [])].
+Proof. exact place_strip. Qed.
+Theorem C11_parse_render : forall fparse crank ts dts v eols eof,
+  scannable ts -> place ts 1 1 = dts ++ eols ++ [eof] ->
+  dcoll fparse crank dts v -> Forall eolt eols -> ttype_of eof = TEOF ->
+  parse_source fparse crank (render_toks ts) = PValue v.
+Proof. exact parse_render. Qed.
+
 Theorem C11_first_words : forall rest,
   try_types scan_order_t (zs "true" ++ rest) = Some (TBoolean, 4%nat) /\
   try_types scan_order_t (zs "false" ++ rest) = Some (TBoolean, 5%nat) /\
@@ -199,4 +230,12 @@ Print Assumptions C11_first_float.
 Print Assumptions C11_first_rune_plain.
 Print Assumptions C11_first_rune_simple_escape.
 Print Assumptions C11_first_string_escaped.
+Print Assumptions C11_first_complex.
+Print Assumptions C11_first_rune_x.
+Print Assumptions C11_first_rune_u.
+Print Assumptions C11_first_rune_U.
+Print Assumptions C11_first_string_full.
+Print Assumptions C11_lex_render.
+Print Assumptions C11_place_strip.
+Print Assumptions C11_parse_render.
 Print Assumptions C11_first_words.
